@@ -55,6 +55,9 @@ def run(chk):
     chk.section("analyze", lambda: analyze_section(chk))
     chk.section("check_bb", lambda: check_bb_section(chk))
     chk.section("check_cfg", lambda: check_cfg_section(chk))
+    for i in range(8):
+        chk.section(f"variable-stats-{i}", lambda i=i: varstats_section(chk, i, 8))
+    chk.section("cfg-uses", lambda: cfg_uses_section(chk))
     n = 16
     for i in range(n):
         chk.section(f"bounded-{i}", lambda i=i: bounded_section(chk, i, n))
@@ -62,7 +65,7 @@ def run(chk):
     chk.assumptions += [
         "rule induction: a predicate closed under the defining rules of an inductively defined predicate (Unasg, the least liveness solution) contains it; induction on the BFS depth of compiled blocks — the induction SCHEMES are applied by hand, each base/step case is a z3 obligation",
         "contracts of check_bb / check_cfg used as hypotheses of the lemma (read off the code, exercised by the bounded layer, not proved function-by-function here): check_bb rejects iff a local variable live before a (dummy) successor is not in ctx.locals or, for the entry block, a used local is not an input; the row passed along an edge is `live_before[succ] ∩ ctx.locals`; check_cfg visits every edge leaving a compiled block and compiles a block with the row of the first edge reaching it",
-        "BB.compute_variable_stats yields exactly the names assigned in / read-before-assigned in the block (C07's subject)",
+        "BB.compute_variable_stats yields exactly the names assigned in / read-before-assigned in the block: proved per block for the blocks of a program family (section variable-stats), not for arbitrary statements",
         "LivenessAnalysis returns the least solution of the liveness equations over successors and dummy successors (proved in C09)",
     ]
     chk.not_covered += ["statically dead code (statements after a statement every path of which jumps away, reads under `if False:`): guppylang checks it through dummy links as if reachable from the preceding block; the bounded oracle skips such programs",
@@ -398,3 +401,110 @@ def bounded_section(chk, i, n):
                            witness=w and {"program": w["program"], "detail": w["detail"]}, func=f"{CHK}:check_cfg")
     if w:
         o.replay.update({"script": ORACLE + REPLAY_ONE, "input": {"prog": w["prog"]}})
+
+
+# ------------------------------------------------------------------------------ variable statistics of a block
+VARSTATS_EXTRA = [
+    ["x: int = x + 1", "e(x)"], ["if c0():", "    z: int = z", "e(1)"], ["while c0():", "    y: int = y + x", "    e(y)"], ["z: int = 1", "z: int = z + 1", "e(z)"],
+    ["xs = array(1, 2, 3)", "xs[x] = y", "xs[y] += x", "e(xs[0])"], ["a, (b, c) = x, (y, x)", "e(a + b + c)"], ["a, *b = array(x, y, 3)", "e(a)"],
+    ["x = (y := x + 2) + y", "e(y)"], ["if c0():", "    w = 1", "w", "e(2)"], ["w", "w = 1"], ["x = y = x + 1", "e(y)"], ["x, y = y, x", "x, x = x, y", "e(x)"],
+    ["for i in range(x):", "    x = i", "    e(i)"], ["for x in range(y):", "    e(x)", "e(x)"], ["while x < 3:", "    x = x + 1", "    y = x", "e(y)"],
+    ["e(x) if c0() else e(y)", "e(z if c1() else x)"], ["x = -x", "y = not y", "e(x < y < 3)"],
+]
+
+
+def varstats_section(chk, chunk, nchunks):
+    """BB.compute_variable_stats / VariableVisitor (cfg/bb.py), real code, on every basic block of
+    the CFG the real builder produces for each program of a family (C03's statement family without
+    nested functions, plus annotated / subscript / starred / chained assignments): the names the
+    block ASSIGNS and the names it READS BEFORE ASSIGNING THEM must be exactly those CPython's own
+    compiler emits STORE_NAME / LOAD_NAME for, in evaluation order, when it compiles the block's
+    statements and predicate as straight-line code.  (The liveness and assignment analyses, and so
+    every 'not defined' / 'different types' verdict, start from these two sets.)"""
+    import dis
+    from . import C03 as C3
+    from . import cfgsem as S
+    BBM = "guppylang_internals.cfg.bb"
+    e = C3.cfg_engine(chk)
+    for q in ("BB.compute_variable_stats", "VariableVisitor._update_used", "VariableVisitor.visit_Name", "VariableVisitor.visit_Assign", "VariableVisitor.visit_AugAssign",
+              "VariableVisitor.visit_AnnAssign", "VariableVisitor._handle_assign_target"):
+        e.func_info(BBM, q)
+    progs = []
+    for src in S.programs(chk.tier):
+        body = src.splitlines()[6:]          # without the nested-function prologue
+        if any("g(" in l for l in body):
+            continue
+        progs.append("def f():\n    x = 0\n    y = 1\n" + "\n".join(body) + "\n")
+    for b in VARSTATS_EXTRA:
+        progs.append("def f():\n    x = 0\n    y = 1\n" + "\n".join("    " + l for l in b) + "\n    e(x)\n    e(y)\n")
+    mine = list(enumerate(progs))[chunk::nchunks]
+    n_ok = 0
+    for gi, src in mine:
+        def t(it, src=src):
+            from .common import ast_from_source
+            m = e.module(C3.B)
+            it.ctx.mod_globals(m)["tmp_vars"] = [f"%tmp{i}" for i in range(300)]
+            CB = it.lookup_global(m, "CFGBuilder")
+            fd = ast_from_source(it, src).fields["body"][0]
+            cfg = it.call_method(it.call(CB, [], {}), "build", [fd.fields["body"], True, SObj(ClassVal("Globals", builtin=True), {})])
+            out = []
+            for bb in cfg.fields["bbs"]:
+                st = it.call_method(bb, "compute_variable_stats", [])
+                out.append((bb, sorted(st.fields["assigned"].keys()), sorted(st.fields["used"].keys())))
+            return out
+        paths = e.explore(t)
+        whys = []
+
+        def post(p, src=src):
+            if p.kind != "return":
+                whys.append(f"{p.kind}: {p.value!r:.200}")
+                return z3.BoolVal(False)
+            for bb, assigned, used in p.value:
+                try:
+                    reals = [C3.to_real_ext(st) for st in bb.fields["statements"]]
+                    # `return v` reads what `v` reads (module-level code cannot contain a return)
+                    reals = [(__import__("ast").Expr(r.value) if r.value is not None else __import__("ast").Pass()) if isinstance(r, __import__("ast").Return) else r for r in reals]
+                    # an annotation is not a variable read of the program (module-level compilation would evaluate it)
+                    _a = __import__("ast")
+                    reals = [(_a.Assign([r.target], r.value) if r.value is not None else _a.Pass()) if isinstance(r, _a.AnnAssign) else r for r in reals]
+                    text = "\n".join(S._text(r) for r in reals)
+                    if bb.fields["branch_pred"] is not None:
+                        text += "\n(" + S._text(C3.to_real_ext(bb.fields["branch_pred"])) + ")"
+                except S.CfgShapeError as ex:
+                    whys.append(f"shape: {ex}")
+                    return z3.BoolVal(False)
+                ref_a, ref_u = set(), set()
+                for ins in dis.get_instructions(compile(text, "<bb>", "exec")):
+                    nm = ins.argval if isinstance(ins.argval, str) else None
+                    if nm is None or nm in ("__make_iter", "__iter_next"):
+                        continue
+                    nm = nm.replace("_pct_", "%")
+                    if ins.opname in ("LOAD_NAME", "LOAD_GLOBAL") and nm not in ref_a:
+                        ref_u.add(nm)
+                    elif ins.opname == "STORE_NAME":
+                        ref_a.add(nm)
+                if sorted(ref_a) != assigned or sorted(ref_u) != used:
+                    whys.append(f"block `{text.replace(chr(10), ' ; ')}`: assigned {assigned} / read-before-assigned {used}; CPython's compiler: {sorted(ref_a)} / {sorted(ref_u)}")
+                    return z3.BoolVal(False)
+            return z3.BoolVal(True)
+        body = " ; ".join(l.strip() for l in src.splitlines()[3:-2])
+        outs = chk.prove_paths(f"compute_variable_stats[#{gi}: {body[:80]}]:per-block-assigned/read-before-assigned==CPython's-STORE/LOAD-order", paths, post, func=f"{BBM}:BB.compute_variable_stats")
+        for o in outs:
+            if o.status == "refuted" and whys:
+                o.detail = (o.detail + " " if o.detail else "") + whys[0]
+        n_ok += 1
+    chk.record(f"compute_variable_stats:programs-explored[chunk {chunk}]", n_ok >= 8, str(n_ok), kind="reachability")
+    chk.use_engine(e)
+
+
+def cfg_uses_section(chk):
+    """Every read of a variable in the source is a read in some basic block: the real CFGBuilder is
+    run on the use/def family (bare-name statements, annotated / chained / starred assignments,
+    reads in conditions and loop headers) and the CFG, executed block by block, must fail with an
+    unbound variable exactly where CPython does, for every decision sequence (C03's machinery)."""
+    from . import C03 as C3
+    e = C3.cfg_engine(chk)
+    progs = ["def f():\n    x = 0\n    y = 1\n" + "\n".join("    " + l for l in b) + "\n    e(x)\n    e(y)\n" for b in VARSTATS_EXTRA]
+    n = C3.cfg_obligations(chk, e, list(enumerate(progs)), 4, what="the-CFG-reads-(and-fails-on-unbound)-exactly-the-variables-Python-reads")
+    chk.record("cfg-uses:programs-explored", n == len(progs), str(n), kind="reachability")
+    chk.use_engine(e)
